@@ -16,7 +16,7 @@ for k in q.kf_excl:
 if q.kf_only: defs['KF_ONLY_' + q.kf_only.replace('-', '_')] = 1
 key, ent = compile_ir(w, q, defs)
 if ent.get('err'): print(ent['err']); sys.exit(1)
-c, loops, err = translate(w, key, ent, q.stubs, q.self_stubs)
+c, loops, err = translate(w, key, ent, q.stubs, q.self_stubs, q.stubs_optional)
 if err: print(err); sys.exit(1)
 import hashlib
 skey = hashlib.sha1(repr((sorted(q.stubs.items()), sorted(q.self_stubs.items()))).encode()).hexdigest()[:8]
